@@ -4,7 +4,8 @@ Generated: a sample vector x (0..300 finite doubles; shapes tiny / constant /
 common offset up to 1e9 sigma / magnitudes 1e-150..1e150 / small integers /
 general), a weight vector (all ones / with zeros / one dominant / general), a
 partition of the vector into up to 4 consecutive parts (parts may be empty)
-that are summarised separately, a list of merges (target = first operand,
+that are summarised separately, resets of summaries that held data (left empty or
+refilled with a slice), a list of merges (target = first operand,
 second operand or a third summary; operands may be empty, merged before, or
 identical), later additions to merged results, and a power-of-two weight scale.
 The same program runs on four families of objects:
@@ -133,7 +134,20 @@ def _case(draw):
     paths = draw(st.sampled_from(["", "", "ds", "ts", "ds+ts"]))
     t0 = draw(st.sampled_from([0.0, 1.0, 100.0, 1e6]))
     order = draw(st.sampled_from(["parts-first", "parts-first", "empty-merge-first"]))
-    return dict(shape=shape, wshape=wshape, xs=xs, ws=ws, cuts=cuts, late=late, merges=merges,
+    # summaries that are reset after having held data ("a newly initialized state"): empty operands of the
+    # merges that follow, or refilled with a slice of the data
+    resets = []
+    if draw(st.integers(0, 2)) == 0:
+        for _ in range(draw(st.integers(1, 2))):
+            rs = draw(used)
+            lo = draw(st.integers(0, n))
+            cnt = draw(st.sampled_from([0, 0, 0, 1, 2, 5, 40]))
+            resets.append((rs, lo, min(cnt, n - lo), draw(st.sampled_from(["before-merges", "before-merges", "mid-merges"]))))
+    if resets and draw(st.booleans()):
+        # make sure the emptied summary meets a (mostly non-empty) operand afterwards
+        merges = merges[:3] + [(draw(slot), resets[0][0], draw(used)) if draw(st.booleans())
+                               else (draw(slot), draw(used), resets[0][0])]
+    return dict(resets=resets, shape=shape, wshape=wshape, xs=xs, ws=ws, cuts=cuts, late=late, merges=merges,
                 late_slot=late_slot, k=k, paths=paths, t0=t0, order=order)
 
 
@@ -171,6 +185,15 @@ def serialize(case):
         P.cmd("ws.get", s + NSLOT)
         P.cmd("ws.get", s + 2 * NSLOT)
 
+    def reset(s, lo, cnt):
+        P.cmd("sum.reset", s)
+        P.cmd("ws.reset", s)
+        P.cmd("ws.reset", s + NSLOT)
+        P.cmd("ws.reset", s + 2 * NSLOT)
+        if cnt:
+            add(s, lo, cnt)
+        get(s)
+
     nmain = n - case["late"]
     bounds = [0] + [min(c, nmain) for c in case["cuts"]] + [nmain]
     merges = list(case["merges"])
@@ -183,9 +206,16 @@ def serialize(case):
         add(i, bounds[i], bounds[i + 1] - bounds[i])
     for i in range(len(bounds) - 1):
         get(i)
-    for (t, a, b) in merges:
+    for (rs, lo, cnt, when) in case.get("resets", ()):
+        if when == "before-merges":
+            reset(rs, lo, cnt)
+    for mi, (t, a, b) in enumerate(merges):
         merge(t, a, b)
         get(t)
+        if mi == 0:
+            for (rs, lo, cnt, when) in case.get("resets", ()):
+                if when == "mid-merges":
+                    reset(rs, lo, cnt)
     if case["late"]:
         add(case["late_slot"], nmain, case["late"])
         get(case["late_slot"])
